@@ -523,7 +523,7 @@ where
     custom(|inp: &mut InputRef<'a, '_, I, Ex<'a, I>>| {
         hook::cb();
         let c = inp.cursor();
-        Ok(Val::OnlySpan(inp.span_from(&c..).norm()))
+        Ok(Val::RestSpan(inp.span_from(&c..).norm()))
     })
     .boxed()
 }
@@ -640,6 +640,21 @@ where
     }
     fn ref_api(_a: u8) -> Option<BP<'a, Self>> {
         None
+    }
+    /// the by-value twin of `ref_api` (same output shape; every ValueInput kind)
+    fn ref_api_by_value(a: u8) -> BP<'a, Self> {
+        custom(move |inp: &mut InputRef<'a, '_, Self, Ex<'a, Self>>| {
+            hook::cb();
+            let before = inp.cursor();
+            let seen: Option<Self::Token> = inp.peek();
+            if seen.map(|t| t.to_sym()) != Some(a) {
+                return Err(Rich::custom(inp.span_since(&before), "refapi-nomatch"));
+            }
+            let got: Option<Self::Token> = inp.next();
+            let after = inp.peek().map(|t: Self::Token| t.to_sym()).unwrap_or(254);
+            Ok(Val::Span(inp.span_since(&before).norm(), Box::new(Val::Seq(vec![Val::Tok(got.map(|t| t.to_sym()).unwrap_or(255)), Val::Tok(after)]))))
+        })
+        .boxed()
     }
     fn slice_api(_a: u8) -> Option<BP<'a, Self>> {
         None
@@ -821,11 +836,11 @@ caps!([F: Fn(CSp) -> CSp + 'a] MappedSpan<CSp, WithContext<CSp, IoInput<SimReade
 caps!([F: Fn((u8, CSp)) -> (u8, CSp) + 'a] WithContext<CSp, MappedInput<u8, CSp, Stream<SimIter<(u8, CSp)>>, F>>;);
 // Input::map over inputs that hand out tokens by value (the function derives token and span from the underlying token)
 caps!([F: Fn(u8) -> (u8, CSp) + 'a] MappedInput<u8, CSp, IoInput<SimReader>, F>;);
-caps!([F: Fn(u8) -> (u8, CSp) + 'a] MappedInput<u8, CSp, bytes::Bytes, F>;);
-caps!([F: Fn(char) -> (u8, CSp) + 'a] MappedInput<u8, CSp, &'a str, F>;);
+caps!([F: Fn(u8) -> (u8, CSp) + 'a] MappedInput<u8, CSp, bytes::Bytes, F>; exact);
+caps!([F: Fn(char) -> (u8, CSp) + 'a] MappedInput<u8, CSp, &'a str, F>; exact);
 // mapped (token, span) slice: tokens by reference and slices of the underlying pairs; span_from of a
-// mapped input runs to the end-of-input span by design, which has no index re-basing -> not probed
-caps!([F: Fn(&'a (u8, CSp)) -> (&'a u8, &'a CSp) + 'a] MappedInput<u8, CSp, &'a [(u8, CSp)], F>; slice, borrow);
+// mapped input starts at the next token's span and runs to the end-of-input span (srcsim::compare)
+caps!([F: Fn(&'a (u8, CSp)) -> (&'a u8, &'a CSp) + 'a] MappedInput<u8, CSp, &'a [(u8, CSp)], F>; slice, borrow, exact);
 caps!([F: Fn((u8, CSp)) -> (u8, CSp) + 'a] MappedInput<u8, CSp, Stream<SimIter<(u8, CSp)>>, F>;);
 
 macro_rules! caps_arms_yes {
@@ -847,6 +862,7 @@ macro_rules! caps_arms_yes {
             }
             G::SpanFrom => I::span_from_probe().expect("harness: input kind lacks ExactSizeInput"),
             G::CapApi(0, a) => I::ref_api(*a).expect("harness: input kind lacks BorrowInput"),
+            G::CapApi(2, a) => I::ref_api_by_value(*a),
             G::CapApi(_, a) => I::slice_api(*a).expect("harness: input kind lacks SliceInput"),
             G::Text(k) => I::text(*k).expect("harness: input kind lacks StrInput (or a borrowed slice type for regex)"),
             G::Nested(inner, n) => I::nested(inner, *n as usize).expect("harness: input kind lacks the nest capability"),
